@@ -97,6 +97,7 @@ def run_dataset(job):
         allcols = list(full.columns)
         out["sizes"] = [rg.num_rows for rg in pf.row_groups]
         out["nrows"] = len(rows)
+        out["order"] = [int(r["rid"]) for r in rows]
         # page structure of every chunk (rows per data page), for the distribution and the page-loop model
         files = {}
         npages = []
@@ -179,10 +180,10 @@ def run_dataset(job):
                     sl = mask[a:a + n]
                     if 0 < sum(sl) < n:
                         for (g2, cname), dp in chunk_pages.items():
-                            if g2 == gi and len(dp) > 1 and cname in allcols and (cols is None or cname in cols) and sum(dp) == n \
-                                    and not spec.get("v2"):
+                            if g2 == gi and len(dp) > 1 and cname in allcols and (cols is None or cname in cols) and sum(dp) == n:
                                 cellsv = [rows[a + i][cname] for i in range(n)]
                                 pm.append({"col": cname, "rg": gi, "pages": dp, "mask": [bool(x) for x in sl],
+                                           "kind": "V2" if spec.get("v2") else ("V1nodefi" if spec["cols"].get(cname, {}).get("kind") in ("int", "bool") else "V1defi"),
                                            "nulls": [c is None for c in cellsv],
                                            "got_null": None if "raised" in o else None})
                     a += n
@@ -334,7 +335,7 @@ def run(ctx):
     warnings.filterwarnings("ignore")
     rng = ctx.rng
     ctx.rule = ("datasets of C05 with row groups of 1-12 rows, chunks split into several data pages (MAX_PAGE_SIZE 8-40 bytes), NULLs/NaN, categoricals, "
-                "partitions, v1 pages (v2 in a separate confirmation stream); programs of C05 with row_filter=True, output columns all / rid only / "
+                "partitions, v1 and v2 data pages; programs of C05 with row_filter=True, output columns all / rid only / "
                 "subsets with or without the filter columns; caller masks: random densities, first/last k rows off, alternating, single row, "
                 "block, all, none. trivial = wrong-typed constant (read raises), or nothing selected and nothing returned; "
                 "distinct = distinct (dataset, program|mask, columns)")
@@ -348,10 +349,7 @@ def run(ctx):
                 jobs.append((d["spec"], [(p, c) for p, c in d.get("progs", [])], [(m, c) for m, c in d.get("masks", [])], True))
     ncorpus = len(jobs)
     for _ in range(n_ds):
-        jobs.append(gen_job(rng, nprog=20 if quick else 40, nmask=6 if quick else 10))
-    nconf = 8 if quick else 40
-    for _ in range(nconf):
-        jobs.append(gen_job(rng, v2=True, want_model=False, nprog=6, nmask=6))
+        jobs.append(gen_job(rng, v2=(rng.random() < 0.35), nprog=20 if quick else 40, nmask=6 if quick else 10))
     with mp.get_context("fork").Pool(min(8, os.cpu_count() or 4), initializer=_init) as pool:
         results = pool.map(run_dataset, jobs, chunksize=2)
 
@@ -388,7 +386,8 @@ def run(ctx):
                 gs = set(got)
                 lost = [x for x in o["must"] if x not in gs]
                 extra = [x for x in got if x not in set(o["must"]) and x not in set(o["free"])]
-                order = [r["rid"] for r in []]
+                if len(gs) == len(got) and [x for x in res["order"] if x in gs] != got:
+                    problems.append(("order-differs", "rows come back in the order %s, the full read has them as %s" % (got, [x for x in res["order"] if x in gs])))
                 if lost:
                     problems.append(("lost-rows", "rows %s satisfy the program but are missing from %s" % (lost, got)))
                 if extra:
@@ -401,8 +400,6 @@ def run(ctx):
                 problems.append(("count-differs", "count(filters, row_filter=True) = %s but the read returned %s rows" % (o["count"], o["len"])))
             if problems:
                 ctx.fail(classify(spec, prog, problems[0][0], cols), case, "; ".join(p[1] for p in problems))
-            # order: must follow the order of the full read -- rids are written in increasing order inside each row group and the
-            # full read order is what `rows` has; checked through the model correspondence and by the masked reads below
             if "model" in o:
                 mexprs.append(o["model"])
                 mmeta.append((case, got, o["count"]))
@@ -424,8 +421,7 @@ def run(ctx):
                 a = 0
                 for n in p_["pages"]:
                     cellsv = ["None" if p_["nulls"][a + i] else "(Some %d)" % (a + i) for i in range(n)]
-                    nodefi = "false"
-                    pages.append("(%s, [%s])" % (nodefi, "; ".join(cellsv)))
+                    pages.append("(%s, [%s])" % (p_["kind"], "; ".join(cellsv)))
                     a += n
                 pexprs.append("read_col_masked Z [%s] [%s]" % ("; ".join("true" if b else "false" for b in p_["mask"]), "; ".join(pages)))
                 pmeta.append(({"spec": spec, "mask": mask, "chunk": {k: p_[k] for k in ("col", "rg", "pages")}}, p_["impl"]))
@@ -460,7 +456,7 @@ def run(ctx):
                     enc.append("N" if s[1] is None else s[1][1])
                 else:
                     enc.append(repr(s))
-        ctx.correspondence("read_col_masked model ~ core.read_col(row_filter) on multi-page v1 chunks", case, enc, impl)
+        ctx.correspondence("read_col_masked model ~ core.read_col(row_filter) on multi-page chunks (v1 and v2 pages)", case, enc, impl)
     ctx.extra["corpus_cases"] = ncorpus
 
 
